@@ -70,6 +70,19 @@ def check(pm: ProgramModel, ctx: Ctx) -> None:
     cd = Codec(pm, ctx, W, R, "C06", diff_opts={"ctc_compare": "semantic", "ctc_names": False},
                wsetup=install_antlr, rsetup=install_antlr)
     console = Console()
+    plain_roundtrip = cd.roundtrip
+
+    def roundtrip(model: Any) -> dict[str, Any]:
+        """The AFM recogniser recovers from syntax errors (it prints them and goes on): what it prints while the writer's
+        text is read decides whether that text is AFM at all."""
+        import re as _re
+        pos = len(console.buf.getvalue())
+        out = plain_roundtrip(model)
+        errs = [ln for ln in console.buf.getvalue()[pos:].splitlines() if _re.match(r"line \d+:\d+ ", ln)]
+        if errs and not out["w"]["raise"]:
+            out["syntax"] = errs[:2]
+        return out
+    cd.roundtrip = roundtrip  # type: ignore[method-assign]
     with console:
         _run(pm, ctx, mb, cd)
     ctx.analysed["C06:compositions"] = cd.n
